@@ -7,9 +7,14 @@ def run(tier, seed):
     t0 = time.time()
     from contracts.finfields import C21_NATIVES
     tasks = [('lib.native', 'run_natives', ('contracts.finfields', [n], tier)) for n in C21_NATIVES]
+    tasks += [('vc.tasks', 'run_contract', ('contracts.finfields_a', a, 'contracts.finfields:sqrt_p3', tier)) for a in ('c__sqrt_plain', 'c__sqrt_inv')]
+    tasks += [('vc.tasks', 'run_lean', ([('L5_L6_L7_extra.lean', 'sqrt_3mod4', 'p = 3 mod 4, a a square: (a^((p+1)/4))^2 = a'),
+                                         ('L5_L6_L7_extra.lean', 'sqrt_inv_3mod4', 'p = 3 mod 4, a != 0: a^((3p-5)/4) is the inverse of a^((p+1)/4)')], tier))]
     obs = run_tasks(tasks)
     return finish('C21', tier, seed, obs, 'other', t0,
-                  explanation='bounded exhaustive contract evaluation on the real is_sqr/sqrt of every element of every field in the stated bound, one entry per code branch '
+                  explanation='p = 3 mod 4 (all such primes, all a): engine A verifies that PrimeFieldElement._sqrt returns powmod(a, (p+1)/4, p) resp. (3p-5)/4, 0 for a = 0, raises '
+                              'ZeroDivisionError exactly for a = 0 with INV, and that the Cipolla-Lehmer branch is unreachable; Lean lemmas L6/L6b turn the exponents into the property. '
+                              'ALL BRANCHES: bounded exhaustive contract evaluation on the real is_sqr/sqrt of every element of every field in the stated bound, one entry per code branch '
                               '(p = 3 mod 4, p = 1 mod 4 Cipolla-Lehmer, p = 2, q = 1 mod 4 Tonelli-Shanks, q = 3 mod 4, binary Frobenius, and Tonelli-Shanks on a newly '
                               'created class for the _least_qnr cache): is_sqr(a) iff a is in the set {b*b} computed by the oracle over all b; sqrt(a)^2 == a for squares; '
                               '(sqrt(a, INV=True))^2 * a == 1 for nonzero squares; ZeroDivisionError for a == 0 with INV; results are reduced elements of the same field. '
